@@ -12,7 +12,7 @@ for c in "$@"; do
   for s in ${SEEDS:-0}; do
     out=$(BBLEAN_REPO="$W/repo" VERIF_OUT="$W/out" VERIF_SCRATCH="$W" VERIF_SEED=$s timeout 3000 ./check "$c" --tier ${TIER:-quick} --gen-only 2>&1 | grep -E "^VIOLATION|^OK|^INFRA" | head -2 | tr '\n' ' ')
     kind=""
-    for r in $(echo "$out" | grep -o 'replay=[^ ]*' | cut -d= -f2); do kind="$kind $(python3 -c "import json,sys; d=json.load(open('$W/out/$r')); print(d.get('kind'), '|', d.get('signature', d.get('suite','')))")"; done
+    for r in $(echo "$out" | grep -o 'replay=[^ ]*' | cut -d= -f2); do kind="$kind $(python3 -c "import json,sys; d=json.load(open('$W/out/$r')); print(d.get('kind'), '|', d.get('signature', d.get('suite','')), d.get('theorems_broken_against_regenerated_model') or '')")"; done
     echo "$c seed=$s: $out :: $kind"
   done
 done
